@@ -587,10 +587,26 @@ def short(s: str) -> str:
     return out
 
 
-def _get_short_name_with_model(name: str) -> str:
-    _, _, model_name, _, param_name = name.split(".")
+def _get_short_name_with_model(name: str, other_names: Sequence[str] = ()) -> str:
+    """Return the shortest dotted ending of ``name`` that no name in ``other_names`` shares.
 
-    return f"{model_name}.{param_name}"
+    The ending has at least two parts and never contains the part ``'arguments'``
+    (e.g. ``'illumination.level'`` for ``'pipeline.photon_collection.illumination.arguments.level'``).
+    """
+    parts = [part for part in name.split(".") if part != "arguments"]
+    all_other_parts = [
+        [part for part in other.split(".") if part != "arguments"]
+        for other in other_names
+        if other != name
+    ]
+
+    max_num_parts = max(len(other_parts) for other_parts in [parts, *all_other_parts])
+    for num_parts in range(2, max_num_parts + 1):
+        ending = parts[-num_parts:]
+        if all(other_parts[-num_parts:] != ending for other_parts in all_other_parts):
+            return ".".join(ending)
+
+    return name
 
 
 def create_new_processor(
